@@ -19,7 +19,12 @@
         orders deliver exactly the published messages, and honest shares / points pass the receivers'
         checks.  Missing for the full statement: the referee argument for the disqualification
         steps of phases 2, 4/5, 8/9, 11 (which is exactly where the three recorded findings live)
-        and the reconstruction (Lagrange) argument for the group key. *)
+        and the reconstruction (Lagrange) argument for the group key.
+     4. END-TO-END agreement about [run] for CRASH (fail-silent) adversaries (section 4 below): every
+        n, t, polynomials, arrival interleaving and any number of seats that stop at a phase outside
+        4..7 (no faults / silent from the first phase / crash before sharing or after publishing
+        points).  Open: seats that crash in phases 4..7 (reconstruction in phases 10-12); phase 12 is
+        proved in general in Proofs/C01_crash_key.v (T12), phase 11's nested fold invariant is not. *)
 From Coq Require Import ZArith NArith List Bool Permutation.
 From KV Require Import Common.Verdict Model.C01 Model.C01_crash Proofs.C01 Proofs.C01_crash.
 Import ListNotations.
